@@ -35,7 +35,9 @@ SPEC = {
     "assumptions": ["references are observed through #d16 of the referenced value (low 16 bits) and through the symbol table"],
 }
 
-NAMES = [["g0", "g1", "g2", "g3", "tab"], ["x", "y", "loop", "end"], ["x", "k", "m"], ["x", "q"]]
+# nested levels may carry names that are builtins when written bare (`pc`): with leading dots or inside a dotted path
+# they are ordinary symbols
+NAMES = [["g0", "g1", "g2", "g3", "tab"], ["x", "y", "loop", "end", "pc"], ["x", "k", "m", "pc"], ["x", "q"]]
 
 
 def gen_tree(rng, with_banks=False):
@@ -156,7 +158,24 @@ def inject_fault(rng, prog):
         items.insert(rng.randint(0, len(items)), ("data", 16, [("sshort", ("var", 0, ["nosuch_%d" % rng.randint(0, 9)]), num(16))]))
     elif kind == "undeclared-nested" and decl_idx:
         i = rng.choice(decl_idx)
-        items.insert(i + 1, ("data", 16, [("sshort", ("var", items[i][2] + 1, ["zz_missing"]), num(16))]))
+        below = [it[1] for it in items[i + 1:i + 12] if it[0] in ("label", "const") and it[2] == items[i][2] + 1]
+        name = "pc" if rng.random() < 0.4 and "pc" not in below else "zz_missing"
+        if name == "pc":
+            # only where no child of that name exists anywhere under this parent
+            path, cur = None, []
+            parents_with_pc = set()
+            for it in items:
+                if it[0] in ("label", "const"):
+                    cur = cur[:it[2]] + [it[1]]
+                    if it[1] == "pc":
+                        parents_with_pc.add(tuple(cur[:-1]))
+            cur = []
+            for it in items[:i + 1]:
+                if it[0] in ("label", "const"):
+                    cur = cur[:it[2]] + [it[1]]
+            if tuple(cur) in parents_with_pc:
+                name = "zz_missing"
+        items.insert(i + 1, ("data", 16, [("sshort", ("var", items[i][2] + 1, [name]), num(16))]))
     elif kind == "builtin-tail":
         items.insert(rng.randint(0, len(items)), ("data", 16, [("sshort", ("var", 0, [rng.choice(["pc", "$"]), "nothing"]), num(16))]))
     else:
